@@ -384,6 +384,10 @@ class Sim:
                 ctx.probe('knob:components_through_factories')
         if record.get('alias_objects'):
             ctx.probe('knob:object_identity_aliasing')
+        if record.get('held_item_assigned'):
+            ctx.probe('knob:held_item_assigned_after_construction')
+        if record.get('numpy_coordinates'):
+            ctx.probe('knob:numpy_integer_coordinates')
         if record.get('door_status_assigned'):
             ctx.probe('knob:door_status_assigned_after_construction')
         if record.get('grid_from_shape'):
@@ -479,6 +483,12 @@ class Sim:
         if cl.spec.get('int_actions') and aname in cl.actions and self.op_index % 2 == 0:
             # the action arrives as an index into the action list (what the gym layer does), every other step
             idx = cl.actions.index(aname)
+            if self.op_index % 4 == 0:
+                # ... as a numpy integer, which is what gym's Discrete.sample() returns
+                import numpy as np
+
+                idx = np.int64(idx)
+                self.ctx.probe('action_given_as_numpy_index')
             self.ctx.probe('action_given_as_index')
             r = sut(lambda: cl.env.step(cl.env.action_space.int_to_action(idx)))
         else:
